@@ -21,7 +21,8 @@ import (
 )
 
 type c16Op struct {
-	Op    string   `json:"op"` // connect | sub | unsub | drop | admin | extput | pub | kaprobe
+	Op    string   `json:"op"` // connect | sub | unsub | drop | admin | extput | pub | kaprobe | putfault | watchloss
+	ListFails bool `json:"listfails,omitempty"` // watchloss: the catch-up listing after the re-watch fails once
 	Ka    int      `json:"ka,omitempty"` // connect / kaprobe: keep-alive seconds
 	K     int      `json:"k"`  // connection label (connect defines it)
 	Cid   string   `json:"cid,omitempty"`
@@ -67,6 +68,7 @@ type c16Snap struct {
 }
 
 type c16Step struct {
+	Closed  bool     `json:"closed,omitempty"` // watchloss: the client whose session was deleted during the gap got closed
 	DlMs    int64    `json:"dlms,omitempty"` // kaprobe: read deadline armed by the broker, ms from the moment it was set (-1 none)
 	Skip    bool     `json:"skip"`
 	NoSnap  bool     `json:"nosnap,omitempty"` // no quiescent state to observe here (steps forced into each other); the next snapshot covers it
@@ -325,6 +327,70 @@ func c16Run(in c16In) (obs c16Obs) {
 					env.gate.open() // the delete holds the broker lock: a reconnect is serialised after it
 				}
 			}
+		case "putfault":
+			// one transient write error of the session store, hitting a throw-away client: nothing of the history is
+			// touched, and everything stored afterwards must still reach the store
+			if racing > 0 {
+				st.Skip = true
+				break
+			}
+			env.fs.mu.Lock()
+			env.fs.failPut = 1
+			env.fs.mu.Unlock()
+			if pc, _ := env.dial(fmt.Sprintf("put-fault-%d", len(obs.Steps)), true, true); pc != nil {
+				c15Quiesce(env.open)
+				pc.write(packets.NewControlPacket(packets.Disconnect))
+				pc.waitFor(func() bool { return false })
+				pc.closeSock()
+				env.open--
+			}
+			env.fs.mu.Lock()
+			env.fs.failPut = 0
+			env.fs.mu.Unlock()
+			if !c15Quiesce(env.open) {
+				obs.Bad = append(obs.Bad, "hung: no quiescence after the write fault: "+c15LastStuck)
+			}
+			st.Skip = true // no state of the history changed: nothing to compare
+		case "watchloss":
+			// The delete-watch of the session store is lost; while the broker is re-establishing it a session is deleted
+			// through the admin endpoint (no notification can arrive); the watch comes back, optionally with the catch-up
+			// listing failing once. The deleted session's client must end up closed either way.
+			if racing > 0 {
+				st.Skip = true
+				break
+			}
+			pc, _ := env.dial(fmt.Sprintf("watch-loss-%d", len(obs.Steps)), false, true)
+			if pc == nil || pc.client == nil {
+				obs.Bad = append(obs.Bad, "watchloss: probe client refused")
+				st.Skip = true
+				break
+			}
+			pc.subscribe([]string{"wl/x"}, []byte{1})
+			c15Quiesce(env.open)
+			arrived, release := env.fs.loseWatch()
+			if !arrived() {
+				obs.Bad = append(obs.Bad, "hung: the broker never tried to re-establish the watch")
+			}
+			env.httpDeleteSession(pc.cid) // lands in the gap: nobody is told
+			if op.ListFails {
+				env.fs.mu.Lock()
+				env.fs.failList = 1
+				env.fs.mu.Unlock()
+			}
+			release()
+			if !c15Quiesce(env.open) {
+				obs.Bad = append(obs.Bad, "hung: no quiescence after the re-watch: "+c15LastStuck)
+			}
+			st.Closed = pc.client.disconnected()
+			env.fs.mu.Lock()
+			env.fs.failList = 0
+			env.fs.mu.Unlock()
+			// the probe client leaves: one more packet ends a closed connection's read loop, else a plain drop
+			pc.write(packets.NewControlPacket(packets.Pingreq))
+			pc.closeSock()
+			env.open--
+			c15Quiesce(env.open)
+			st.NoSnap = true // the throw-away client is not part of the modelled history
 		case "kaprobe":
 			if racing > 0 {
 				st.Skip = true
@@ -526,6 +592,12 @@ func c16Gen(r *vfRand, adv bool) c16In {
 			in.Ops = append(in.Ops, c16Op{Op: "pub", Topic: t})
 		}
 	}
+	if r.Chance(1, 25) {
+		// storage faults of the delete-watch, on their own (a failed catch-up listing closes EVERY client, so no
+		// history runs alongside)
+		in.Ops = append(in.Ops, c16Op{Op: "watchloss", ListFails: r.Bool()})
+		return in
+	}
 	switch shape := r.Intn(11); {
 	case shape == 10:
 		// a chain of reconnects / takeovers of one persistent session; BETWEEN two of them the subscription set
@@ -581,6 +653,9 @@ func c16Gen(r *vfRand, adv bool) c16In {
 		// drop and come back: the stored session must give exactly the live set back (or nothing, if clean);
 		// in between the session may be deleted through the admin endpoint or rewritten by another broker instance
 		c1, c2 := r.Chance(1, 4), r.Chance(1, 4)
+		if r.Chance(1, 3) {
+			in.Ops = append(in.Ops, c16Op{Op: "putfault"})
+		}
 		connect("A", c1)
 		in.Ops = append(in.Ops, c16Op{Op: "sub", K: 0, Subs: subs()})
 		if r.Bool() {
@@ -632,6 +707,9 @@ func c16Gen(r *vfRand, adv bool) c16In {
 		connect("A", r.Chance(2, 3))
 		pubAll()
 		return in
+	}
+	if r.Chance(1, 4) {
+		in.Ops = append(in.Ops, c16Op{Op: "putfault"})
 	}
 	connect("A", r.Bool())
 	n := r.Range(4, 11)
